@@ -348,6 +348,42 @@ func c03Units(ctx *core.Ctx) []core.Unit {
 			}
 		}
 	}})
+	us = append(us, core.Unit{Name: "schedules: whole CreateMultiProof (3 openings, 2 workers) and CreateIPAProof under DPOR (time cap)", Run: func(ctx *core.Ctx, r *core.Result) {
+		if !vsched.Instrumented {
+			r.Note("seam", "unavailable (fallback flavour)")
+			return
+		}
+		needRef()
+		c := conf()
+		defer vsched.SetNumCPU(0)
+		vsched.SetNumCPU(2)
+		polys := polyAlphabet(ctx.Seed)
+		s := stmt{label: "vt", zs: []int{5, 200, 5}, polys: []namedPoly{polys[10], polys[12], polys[13]}}
+		rc, rfs, _ := s.refObjs()
+		want, _ := ref.MultiProveBytes(s.label, ref.SRS(), rc, rfs, s.zs)
+		body := func() string {
+			b, _, err := implProofBytes(c, s)
+			if err != nil {
+				return "error " + err.Error()
+			}
+			return hx(b)
+		}
+		st := core.Explore(r, core.SchedSpec{Name: "CreateMultiProof(" + s.String() + ") NumCPU=2", API: "CreateMultiProof", Check: "c03.schedule", Body: body, Expect: hx(want), Mode: "dpor", Opt: explore.Options{DataBudget: 0, MaxExecs: 100000, Deadline: schedDeadline(ctx)}})
+		r.Nontrivial += int64(st.Complete)
+		a := frsFromBig(polys[12].V)
+		cm := c.Commit(a)
+		rt := ref.NewTranscript("ipa")
+		rp := ref.IPAProve(rt, ref.SRS(), refCommitCached(ref.SRS(), polys[12]), polys[12].V, bi(300))
+		body2 := func() string {
+			pr, err := ipa.CreateIPAProof(common.NewTranscript("ipa"), c, cm, append([]fr.Element(nil), a...), frFromBig(bi(300)))
+			if err != nil {
+				return "error " + err.Error()
+			}
+			return hx(ipaProofBytes(&pr))
+		}
+		st = core.Explore(r, core.SchedSpec{Name: "CreateIPAProof(prf0, point 300) NumCPU=2", API: "ipa.CreateIPAProof", Check: "c03.schedule", Body: body2, Expect: hx(rp.Bytes()), Mode: "dpor", Opt: explore.Options{DataBudget: 0, MaxExecs: 100000, Deadline: schedDeadline(ctx)}})
+		r.Nontrivial += int64(st.Complete)
+	}})
 	// (d) pool answers
 	us = append(us, core.Unit{Name: "pool answers inside transcript challenges and IPA proving", Run: func(ctx *core.Ctx, r *core.Result) {
 		if !vsched.Instrumented {
